@@ -314,7 +314,8 @@ class Chipset(object):
         data = self._read_register(data)
         if data is None or len(data) < len(args):
             self.chipset_error(None)  # less than one value per register
-        return list(data) if len(data) > 1 else data[0]
+        data = data[0:len(args)]  # and not more than one
+        return list(data) if len(data) != 1 else data[0]
 
     def _read_register(self, data):
         cname = self.__class__.__module__ + '.' + self.__class__.__name__
